@@ -203,3 +203,9 @@ void vf_harness(void) { int t; Var_clone(t); VF_CANARY(); }
     trusted=['dup() gives private storage (C01); `foreach(x) x = x.clone()` abstracted to one in-place replacement of all children (recursion = the same contract)'],
 )
 UNITS += [clone_unit]
+
+# replay: the units verify single operations on ghost-shaped Vars; the native counterpart is the driver's small-scope search (all string lengths 0..20 x target kinds,
+# own-child assignments for every child kind, clone independence)
+for _u in UNITS:
+    if not _u.replay:
+        _u.replay = replay.battery('C04/driver.cpp', ['battery'])
